@@ -736,7 +736,8 @@ def _basic_add(a, b):
 
 def _basic_sub(a, b):
     sumbits, carry_out = _add_helper(a, ~b, 1)
-    return concat(carry_out, sumbits)
+    # a - b == a + ~b + 1; a carry out of 1 means no borrow, so the top (sign) bit is its inverse
+    return concat(~carry_out, sumbits)
 
 
 def _basic_eq(a, b):
